@@ -15,7 +15,8 @@ use serde_json::{json, Value};
 use std::collections::BTreeSet;
 use std::path::Path;
 
-pub const TOOL_KEYLENS: &[usize] = &[4, 8, 32, 128];
+/// every key size the index-reading tools dispatch on
+pub const TOOL_KEYLENS: &[usize] = &[4, 8, 16, 32, 64, 128];
 
 #[derive(Clone, Debug, Serialize, Deserialize, PartialEq, Eq)]
 pub enum Dmg {
@@ -56,7 +57,9 @@ fn validate_index_dyn(keylen: usize, path: &Path) -> anyhow::Result<()> {
     match keylen {
         4 => tools::validate_index::<ArrayKey<4>>(path),
         8 => tools::validate_index::<ArrayKey<8>>(path),
+        16 => tools::validate_index::<ArrayKey<16>>(path),
         32 => tools::validate_index::<ArrayKey<32>>(path),
+        64 => tools::validate_index::<ArrayKey<64>>(path),
         128 => tools::validate_index::<ArrayKey<128>>(path),
         _ => Err(anyhow::anyhow!("unsupported")),
     }
